@@ -104,7 +104,7 @@ Cmt(s)      == [t |-> "cmt", s |-> s]
 \* the Go helpers the harness registers under these names (meanings: PlushSem.CallGo)
 HelperData == [p |-> Go("p"), fail |-> Go("fail"), failrec |-> Go("failrec"), vcount |-> Go("vcount"), getx |-> Go("getx"), boldh |-> Go("boldh"), id |-> Go("id"), raw |-> Go("raw"), len |-> Go("len"),
                range |-> Go("range"), between |-> Go("between"), until |-> Go("until"),
-               blk |-> Go("blk"), blks |-> Go("blks"), blkown |-> Go("blkown"),
+               blk |-> Go("blk"), blks |-> Go("blks"), blkown |-> Go("blkown"), blktry |-> Go("blktry"),
                contentFor |-> Go("contentFor"), contentOf |-> Go("contentOf"), partial |-> Go("partial")]
 WithHelpers(d) == [k \in DOMAIN HelperData \cup DOMAIN d |-> IF k \in DOMAIN d THEN d[k] ELSE HelperData[k]]
 =============================================================================
